@@ -13,7 +13,7 @@ EXPLANATION = ('llsym with ipdom state merging executes the real mj_stateSize / 
                'get writes exactly the selected elements in bit order and nothing past them; set/copy write exactly the selected arrays and leave every other cell of '
                'mjData untouched; extract(get(d,s),s,s2) = get(d,s2); invalid signatures raise an error; every access in bounds.')
 BOUNDS = {'quick': {'sizes': 'profiles A (all element counts 1), B (mixed 0/1/2)', 'signature': 'any 32-bit int'}, 'thorough': {'sizes': 'profiles A, B, C (2,1,2,...), D (zeros except qpos/qvel)'}}
-OUTSIDE = 'mj_resetData equals a fresh mj_makeData (whole-struct initialisation); keyframe functions; array sizes above 2.'
+OUTSIDE = 'mj_extractState on the profile with all 14 elements non-empty (does not finish: 900 s budget), covered on profiles B/C/D; mj_resetData equals a fresh mj_makeData (whole-struct initialisation); keyframe functions; array sizes above 2.'
 ASSUMPTIONS = ['array contents are reals (copies only; NaN payload bits are not distinguished - mju_copy is memcpy)', 'eq_active bytes hold 0 or 1', 'mju_message(ERROR) does not return']
 BUDGET = {'quick': 900, 'thorough': 3000}
 _c = {}
@@ -281,6 +281,9 @@ def unit_extract(tier, prof):
 def units(tier):
     u = []
     for prof in (['A', 'B'] if tier == 'quick' else ['A', 'B', 'C', 'D']):
-        for fn in ('size', 'get', 'set', 'copy', 'extract'):
+        for fn in ('size', 'get', 'set', 'copy'):
             u.append(('%s_%s' % (fn, prof), 'unit_' + fn, {'prof': prof}))
+    # extract has two symbolic signatures; the all-elements profile A does not finish in the budget and is outside the claim
+    for prof in (['B', 'D'] if tier == 'quick' else ['B', 'C', 'D']):
+        u.append(('extract_%s' % prof, 'unit_extract', {'prof': prof}))
     return u
